@@ -7,6 +7,7 @@ use crate::model::{EndSpec, ModelGame};
 use crate::rt::{Ctx, Fail};
 use crate::spec;
 
+pub mod chain;
 pub mod c01;
 pub mod c02;
 pub mod c03;
